@@ -8,6 +8,7 @@ import (
 	"crypto/sha256"
 	"strconv"
 	"strings"
+	"sync"
 	"time"
 
 	"github.com/btcsuite/btcd/blockchain"
@@ -232,8 +233,56 @@ func execPmt(f []string) string {
 	for i, h := range mb.Hashes {
 		hs[i] = hex.EncodeToString(h[:])
 	}
-	return fmt.Sprintf("idx=%s tx=%d flags=%s hashes=%s root=%s x=%s wire=%s", idxS, mb.Transactions,
-		hex.EncodeToString(mb.Flags), strings.Join(hs, ","), hex.EncodeToString(root[:]), bit(x), wireHash)
+	// inputs are values: the same block (and, with BloomUpdateNone, the same filter) serves three more
+	// sequential and four concurrent NewMerkleBlock calls; same message every time, block and filter untouched
+	inp := true
+	{
+		var before bytes.Buffer
+		_ = blk.Serialize(&before)
+		fbefore := append([]byte{}, filter.MsgFilterLoad().Filter...)
+		same := func(f *bloom.Filter) bool {
+			m2, idx2 := bloom.NewMerkleBlock(block, f)
+			if len(idx2) != len(idx) || m2.Transactions != mb.Transactions || !bytes.Equal(m2.Flags, mb.Flags) ||
+				len(m2.Hashes) != len(mb.Hashes) {
+				return false
+			}
+			for i := range idx {
+				if idx2[i] != idx[i] {
+					return false
+				}
+			}
+			for i := range m2.Hashes {
+				if *m2.Hashes[i] != *mb.Hashes[i] {
+					return false
+				}
+			}
+			return true
+		}
+		for k := 0; k < 3; k++ {
+			inp = inp && same(filter)
+		}
+		var wg sync.WaitGroup
+		res := make([]bool, 4)
+		for k := range res {
+			wg.Add(1)
+			go func(k int) {
+				defer wg.Done()
+				defer func() { _ = recover() }()
+				f2 := bloom.LoadFilter(&wire.MsgFilterLoad{Filter: append([]byte{}, fbefore...), HashFuncs: 10,
+					Tweak: uint32(seed64), Flags: wire.BloomUpdateNone})
+				res[k] = same(f2)
+			}(k)
+		}
+		wg.Wait()
+		for _, ok := range res {
+			inp = inp && ok
+		}
+		var after bytes.Buffer
+		_ = blk.Serialize(&after)
+		inp = inp && bytes.Equal(before.Bytes(), after.Bytes()) && bytes.Equal(fbefore, filter.MsgFilterLoad().Filter)
+	}
+	return fmt.Sprintf("idx=%s tx=%d flags=%s hashes=%s root=%s x=%s inp=%s wire=%s", idxS, mb.Transactions,
+		hex.EncodeToString(mb.Flags), strings.Join(hs, ","), hex.EncodeToString(root[:]), bit(x), bit(inp), wireHash)
 }
 
 func pmtVarint(n uint64) []byte {
